@@ -399,27 +399,31 @@ var gcErrLine = regexp.MustCompile(`(?m)^(?:\./)?p(\d{5})/main\.go:\d+(?::\d+)?:
 var gcPkgLine = regexp.MustCompile(`(?m)^(?:package )?corpusgc/p(\d{5})\b.*$`)
 
 // RunGcCorpus builds every program as its own main package of ONE scratch module
-// with one `go build -o bin/ ./...` and runs every binary twice.
-func RunGcCorpus(dir, repo string, progs []CorpusProgram, parallel int) ([]GcOutcome, error) {
+// with one `go build -o bin/ ./...` and runs every binary twice. It also returns
+// the seconds spent building and running (reported in the evidence, never judged).
+func RunGcCorpus(dir, repo string, progs []CorpusProgram, parallel int) ([]GcOutcome, [2]float64, error) {
+	var spent [2]float64
+	t0 := time.Now()
 	outs := make([]GcOutcome, len(progs))
 	if err := writeModule(dir, "corpusgc", repo); err != nil {
-		return nil, err
+		return nil, spent, err
 	}
 	alive := make([]bool, len(progs))
 	for i, p := range progs {
 		alive[i] = true
 		if err := os.MkdirAll(filepath.Join(dir, fmt.Sprintf("p%05d", i)), 0o755); err != nil {
-			return nil, err
+			return nil, spent, err
 		}
 		if err := os.WriteFile(filepath.Join(dir, fmt.Sprintf("p%05d", i), "main.go"), p.Source, 0o644); err != nil {
-			return nil, err
+			return nil, spent, err
 		}
 	}
 	binDir := filepath.Join(dir, "bin")
 	for attempt := 0; ; attempt++ {
 		os.RemoveAll(binDir)
 		os.MkdirAll(binDir, 0o755)
-		c := exec.Command(goBin(), "build", "-o", binDir+string(filepath.Separator), "./...")
+		// -s -w: no symbol table and DWARF, which halves the cost of ~1000 links
+		c := exec.Command(goBin(), "build", "-ldflags=-s -w", "-o", binDir+string(filepath.Separator), "./...")
 		c.Dir = dir
 		c.Env = goEnv()
 		out, err := c.CombinedOutput()
@@ -450,7 +454,7 @@ func RunGcCorpus(dir, repo string, progs []CorpusProgram, parallel int) ([]GcOut
 			}
 		}
 		if len(bad) == 0 || attempt >= 6 {
-			return nil, fmt.Errorf("gc build of the corpus module failed: %v\n%s", err, core.Truncate(string(out), 4000))
+			return nil, spent, fmt.Errorf("gc build of the corpus module failed: %v\n%s", err, core.Truncate(string(out), 4000))
 		}
 		for i := range bad {
 			alive[i] = false
@@ -460,6 +464,8 @@ func RunGcCorpus(dir, repo string, progs []CorpusProgram, parallel int) ([]GcOut
 	if parallel < 1 {
 		parallel = 1
 	}
+	spent[0] = time.Since(t0).Seconds()
+	t0 = time.Now()
 	runBase := filepath.Join(dir, "run")
 	sem := make(chan struct{}, parallel)
 	var wg sync.WaitGroup
@@ -506,7 +512,8 @@ func RunGcCorpus(dir, repo string, progs []CorpusProgram, parallel int) ([]GcOut
 		}(i, bin)
 	}
 	wg.Wait()
-	return outs, nil
+	spent[1] = time.Since(t0).Seconds()
+	return outs, spent, nil
 }
 
 func firstLineOf(b []byte) string {
@@ -642,7 +649,7 @@ func DriveCorpus(d *core.Driver) error {
 			pinned[strings.TrimPrefix(f.Scope, corpusScope)] = true
 		}
 	}
-	var excluded []string
+	excluded := []string{}
 	var eligible []CorpusProgram
 	for _, p := range all {
 		if d.InScope(corpusScope + p.Rel) {
@@ -688,9 +695,11 @@ func DriveCorpus(d *core.Driver) error {
 	if par > 14 {
 		par = 14
 	}
-	gc, err := RunGcCorpus(gcDir, repo, sel, par)
+	gc, spent, err := RunGcCorpus(gcDir, repo, sel, par)
 	os.RemoveAll(gcDir)
 	wg.Wait()
+	d.T.Set("corpus_seconds_gc_build", spent[0])
+	d.T.Set("corpus_seconds_gc_runs", spent[1])
 	if err != nil {
 		return fmt.Errorf("corpus: %v", err)
 	}
@@ -703,7 +712,7 @@ func DriveCorpus(d *core.Driver) error {
 		File   string `json:"file"`
 		Reason string `json:"reason"`
 	}
-	var skips []skipped
+	skips := []skipped{}
 	var cases []core.Case
 	for i, p := range sel {
 		if gc[i].Skip != "" {
@@ -732,6 +741,7 @@ func DriveCorpus(d *core.Driver) error {
 		d.T.Sample(map[string]any{"id": cases[len(cases)/2].ID, "file": cd.Name, "gc_stdout": core.Truncate(string(cd.WantOut), 300), "gc_stderr": core.Truncate(string(cd.WantErr), 300)})
 	}
 	results := make([]core.Result, len(cases))
+	t0 := time.Now()
 	runBase := filepath.Join(d.Scratch, "corpus-run")
 	sem := make(chan struct{}, par)
 	for i := range cases {
@@ -747,6 +757,7 @@ func DriveCorpus(d *core.Driver) error {
 		}(i)
 	}
 	wg.Wait()
+	d.T.Set("corpus_seconds_scriggo_runs", time.Since(t0).Seconds())
 	for i := range cases {
 		d.Judge(cases[i], results[i])
 	}
